@@ -254,7 +254,8 @@ def gen_ecases(ctx, n):
         q = rng.sample(allids, min(m, len(allids)))
         if rng.random() < 0.25:
             q.insert(rng.randrange(len(q) + 1), max(allids) + 1 + rng.randrange(5))
-        cases.append({'id': cid, 'blocks': blocks, 'updates': updates, 'q': q,
+        g = rng.sample(allids, rng.randrange(1, len(allids) + 1))
+        cases.append({'id': cid, 'blocks': blocks, 'updates': updates, 'q': q, 'g': g,
                       'final': [[ELEMENT_TYPES.index(t), final[t][0], final[t][1]]
                                 for t in ELEMENT_TYPES if t in final], 'mode': mode})
     return cases
@@ -293,6 +294,13 @@ def eoracle(c, r):
     wantf = sorted((i, t, row) for (i, t, row) in want if i in c['q'])
     if sorted(zip(f['ids'], f['types'], map(tuple, f['data']))) != wantf:
         bad.append('filter_with_ids')
+    if 'generated' in r:
+        tid = {i: t for t, (ids, _) in final.items() for i in ids}
+        got = [(i, t, tuple(row)) for t, tb in r['generated'] for i, row in tb]
+        if sorted(got) != sorted((i, tid[i], (i % 100003 * 3 + 1,)) for i in c['g']):
+            bad.append('generate_elemental_attribute')
+        if len(r['generated']) > 1 and r['generated_summary_ids'] != sorted(c['g']):
+            bad.append('generate_elemental_attribute-summary')
     return bad
 
 
